@@ -19,6 +19,13 @@
 (* TLC checks operational |= declarative; every behaviour TLC enumerates is an implementation      *)
 (* test whose expected observations are the values of this module.                                 *)
 (*                                                                                                 *)
+(* A process is more than a state label and outputs: it owns a CONTEXT (the working data a WorkChain  *)
+(* keeps in self.ctx, a saved member that the running process goes on changing) and a sequence of     *)
+(* FUTURE objects (proc.future() is the current one: on_except replaces a future that was already     *)
+(* resolved).  Checkpoints are values: SaveCheckpoint copies, so nothing a process does after it was   *)
+(* persisted shows in the store; the reply of a waited-for task is read from the CURRENT future of   *)
+(* the terminated process.  Classes Chain and Late exist to make both visible.                       *)
+(*                                                                                                 *)
 (* Outside this module: the no_reply flag of the controllers, malformed task bodies (no task key),   *)
 (* pause / kill of launched processes (C04, C05), the exception class of a missing checkpoint and    *)
 (* shared bundles of the in-memory persister (C14), the loader named inside a bundle (C19).          *)
@@ -38,7 +45,7 @@ CONSTANTS
   Configs,    \* configurations: [hasP : BOOLEAN, kind : {"mem","pickle","none"}, loader : {"default","custom"},
               \*                  ctx : BOOLEAN (the launcher is constructed with a caller-supplied load_context),
               \*                  arg : {"none","pos","kw","bad"}]
-  Classes,    \* process classes: subset of {"Fin", "Exc", "Wait"}
+  Classes,    \* process classes: subset of {"Fin", "Exc", "Wait", "Late", "Chain"}
   Fixes,      \* repairs contained in the implementation under test
   Known       \* deviation identifiers of listed known findings (excused)
 
@@ -48,19 +55,34 @@ vars == <<S>>
 Tags == {"None", "t"}                       \* "None" is the absent tag
 
 (* ----------------------------------------------------------------------------------------------- *)
-(* user code of the three process classes: a trajectory of (state label, outputs) points and the    *)
-(* names of the step functions leading from one point to the next                                   *)
+(* user code of the process classes.  DECLARATIVE: the trajectory of a fresh instance, as points     *)
+(* (state label, outputs, context, error) and the names of the step functions leading from one point *)
+(* to the next.  (The OPERATIONAL user code, written as transformers of the instance, is further down.) *)
 (* ----------------------------------------------------------------------------------------------- *)
-\* Fin : run() emits v and s=1 and returns            -> FINISHED, the reply is the outputs
-\* Exc : run() emits v and raises Boom                -> EXCEPTED, the reply is the error
-\* Wait: run() emits v and returns Wait(after); after() emits s=2 -> FINISHED; needs resume() from the environment
+\* Fin  : run() emits v and s=1 and returns            -> FINISHED, the reply is the outputs
+\* Exc  : run() emits v and raises Boom                -> EXCEPTED, the reply is the error
+\* Wait : run() emits v and returns Wait(after); after() emits s=2 -> FINISHED; needs resume() from the environment
+\* Late : run() emits v and s=1 and returns -> FINISHED (the process future is resolved with the outputs), then on_finished()
+\*        raises StoreFail -> transition_failed -> EXCEPTED: the outcome of the process is the error, not the outputs
+\* Chain: a WorkChain with the outline (gather, report) that keeps its working data in self.ctx: gather() appends an item to
+\*        the list ctx.items (creating the list only if the checkpoint it started from left none), report() emits v and
+\*        n = len(ctx.items)                              -> FINISHED
+Pt(st, outs, ctx, err) == [st |-> st, outs |-> outs, ctx |-> ctx, err |-> err]
 Traj(c, v) ==
-  CASE c = "Fin"  -> << [st |-> "CREATED", outs |-> <<>>], [st |-> "FINISHED", outs |-> << <<"v", v>>, <<"s", "1">> >>] >>
-    [] c = "Exc"  -> << [st |-> "CREATED", outs |-> <<>>], [st |-> "EXCEPTED", outs |-> << <<"v", v>> >>] >>
-    [] c = "Wait" -> << [st |-> "CREATED", outs |-> <<>>], [st |-> "WAITING", outs |-> << <<"v", v>> >>],
-                        [st |-> "FINISHED", outs |-> << <<"v", v>>, <<"s", "2">> >>] >>
-StepNames(c) == IF c = "Wait" THEN <<"run", "after">> ELSE <<"run">>
+  CASE c = "Fin"   -> << Pt("CREATED", <<>>, <<>>, "-"), Pt("FINISHED", << <<"v", v>>, <<"s", "1">> >>, <<>>, "-") >>
+    [] c = "Exc"   -> << Pt("CREATED", <<>>, <<>>, "-"), Pt("EXCEPTED", << <<"v", v>> >>, <<>>, "Boom") >>
+    [] c = "Wait"  -> << Pt("CREATED", <<>>, <<>>, "-"), Pt("WAITING", << <<"v", v>> >>, <<>>, "-"),
+                         Pt("FINISHED", << <<"v", v>>, <<"s", "2">> >>, <<>>, "-") >>
+    [] c = "Late"  -> << Pt("CREATED", <<>>, <<>>, "-"), Pt("EXCEPTED", << <<"v", v>>, <<"s", "1">> >>, <<>>, "StoreFail") >>
+    [] c = "Chain" -> << Pt("CREATED", <<>>, <<>>, "-"), Pt("FINISHED", << <<"v", v>>, <<"n", "1">> >>, <<"item">>, "-") >>
+\* the step functions executed along each edge of the trajectory
+EdgeSteps(c) == CASE c = "Wait"  -> << <<"run">>, <<"after">> >>
+                  [] c = "Chain" -> << <<"gather", "report">> >>
+                  [] OTHER       -> << <<"run">> >>
 Terminal(st) == st \in {"FINISHED", "EXCEPTED"}
+\* the error a class ends with, if it ends with one
+ErrOf(c) == IF c = "Late" THEN "StoreFail" ELSE "Boom"
+ProcessErrors == {"Boom", "StoreFail"}
 \* the constructor argument: inputs = {'v': 7} given positionally / by keyword, absent (default 0) or invalid
 InputOf(arg) == IF arg \in {"pos", "kw"} THEN "7" ELSE "0"
 
@@ -73,12 +95,18 @@ OutReply(o)    == [NoReply EXCEPT !.kind = "outputs", !.outs = o]
 ErrReply(e)    == [NoReply EXCEPT !.kind = "error", !.err = e]
 RejectedReply  == [NoReply EXCEPT !.kind = "rejected", !.err = "TaskRejected"]
 
-NoSnap == [cls |-> "-", name |-> "-", st |-> "-", v |-> "-", outs |-> <<>>]
+NoSnap == [cls |-> "-", name |-> "-", st |-> "-", v |-> "-", outs |-> <<>>, ctx |-> <<>>, err |-> "-"]
 \* what save_checkpoint stores for a process: class (under the name the persister's save context gives it), state, members
-SnapOf(p, scheme) == [cls |-> p.cls, name |-> scheme, st |-> p.st, v |-> p.v, outs |-> p.outs]
+\* (outputs, the context of a ContextMixin, the exception of the EXCEPTED state).  A checkpoint is a VALUE:
+\*   InMemoryPersister.save_checkpoint: Bundle(process, self._save_context, dereference=True)   (members are copied)
+\*   PicklePersister.save_checkpoint  : pickle.dump(Bundle(process), file)                       (serialised at once)
+\* whatever the process does afterwards, the stored snapshot is what the process was when it was saved
+SnapOf(p, scheme) == [cls |-> p.cls, name |-> scheme, st |-> p.st, v |-> p.v, outs |-> p.outs, ctx |-> p.ctx, err |-> p.err]
 
-\* the future of a terminated process: proc.future().result()
-ResultOf(p) == IF p.st = "FINISHED" THEN OutReply(p.outs) ELSE ErrReply("Boom")
+\* proc.future(): the CURRENT future object of the process (the last one it created)
+Future(p) == p.futs[Len(p.futs)]
+\* decimal numerals of the small naturals that occur (all values are strings)
+Str(n) == IF n = 0 THEN "0" ELSE <<"1", "2", "3", "4">>[n]
 
 (* ----------------------------------------------------------------------------------------------- *)
 (* object loaders.  A class name is <<scheme, class>>: scheme "d" = module:name as DefaultObjectLoader   *)
@@ -117,26 +145,51 @@ LoadObject(s, k, loader, scheme, c) == [s EXCEPT !.log = Append(@, [task |-> k, 
 Construct(s, k, c) ==
   [s EXCEPT !.npid = @ + 1,
             !.procs = Append(@, [pid |-> s.npid + 1, cls |-> c, v |-> InputOf(s.cfg.arg), st |-> "CREATED", outs |-> <<>>,
+                                 ctx |-> <<>>, err |-> "-", futs |-> <<NoReply>>,
                                  steps |-> <<>>, origin |-> "new", from |-> NoSnap, by |-> k, mode |-> "none", started |-> FALSE])]
 
-\* saved_state.unbundle(load_context): an instance with the members of the snapshot
+\* saved_state.unbundle(load_context): an instance with the members of the snapshot; the process future is a saved member
+\* too (SavableFuture): the instance recreated from a terminated snapshot carries its outcome
 Recreate(s, k, pid, snap) ==
   [s EXCEPT !.procs = Append(@, [pid |-> pid, cls |-> snap.cls, v |-> snap.v, st |-> snap.st, outs |-> snap.outs,
+                                 ctx |-> snap.ctx, err |-> snap.err,
+                                 futs |-> << IF snap.st = "FINISHED" THEN OutReply(snap.outs)
+                                             ELSE IF snap.st = "EXCEPTED" THEN ErrReply(snap.err) ELSE NoReply >>,
                                  steps |-> <<>>, origin |-> "loaded", from |-> snap, by |-> k, mode |-> "none", started |-> FALSE])]
 
 \* self._persister.save_checkpoint(proc [, tag])
 SaveCheckpoint(s, i, tag) == LET p == s.procs[i] key == <<p.pid, tag>> snap == SnapOf(p, PersisterScheme(s.cfg)) IN
   [s EXCEPT !.store = [x \in DOMAIN s.store \cup {key} |-> IF x = key THEN snap ELSE s.store[x]]]
 
+\* ---- the user code and the hooks around it, as transformers of one instance (OPERATIONAL) ----
+Mark(p, name)     == [p EXCEPT !.steps = Append(@, name)]                  \* a step function starts
+Emit(p, key, val) == [p EXCEPT !.outs = Append(@, <<key, val>>)]           \* self.out(key, val)
+\* Process.on_finish (entering FINISHED): self.future().set_result(self.outputs)
+EnterFinished(p) == [p EXCEPT !.st = "FINISHED", !.futs[Len(p.futs)] = OutReply(p.outs)]
+\* Process.on_except (entering EXCEPTED): if future.done(): self._future = SavableFuture()     <- a NEW future object
+\*                                        self.future().set_exception(exception)
+EnterExcepted(p, e) == LET q == IF Future(p).kind # "pending" THEN [p EXCEPT !.futs = Append(@, NoReply)] ELSE p IN
+                       [q EXCEPT !.st = "EXCEPTED", !.err = e, !.futs[Len(q.futs)] = ErrReply(e)]
+EnterWaiting(p)  == [p EXCEPT !.st = "WAITING"]
+\* the stretch that starts in CREATED
+Run(p) ==
+  CASE p.cls = "Fin"   -> EnterFinished(Emit(Emit(Mark(p, "run"), "v", p.v), "s", "1"))
+    [] p.cls = "Exc"   -> EnterExcepted(Emit(Mark(p, "run"), "v", p.v), "Boom")
+    [] p.cls = "Wait"  -> EnterWaiting(Emit(Mark(p, "run"), "v", p.v))
+    \* Late: FINISHED is entered (on_finish resolves the future), on_finished raises: transition_failed -> EXCEPTED
+    [] p.cls = "Late"  -> EnterExcepted(EnterFinished(Emit(Emit(Mark(p, "run"), "v", p.v), "s", "1")), "StoreFail")
+    \* Chain: self.ctx.setdefault('items', []).append('item'); then self.out('n', len(self.ctx.items))
+    [] p.cls = "Chain" -> LET g == [Mark(p, "gather") EXCEPT !.ctx = Append(@, "item")] IN
+                          EnterFinished(Emit(Emit(Mark(g, "report"), "v", p.v), "n", Str(Len(g.ctx))))
+\* the continuation of the Wait command (class Wait)
+After(p) == EnterFinished(Emit(Mark(p, "after"), "s", "2"))
+
 \* one synchronous stretch of proc.step_until_terminated(): user steps run until the process blocks or terminates
-Pos(p) == CHOOSE j \in 1..Len(Traj(p.cls, p.v)) : Traj(p.cls, p.v)[j].st = p.st
-Advance(s, i) == LET p == s.procs[i] j == Pos(p) nxt == Traj(p.cls, p.v)[j + 1] IN
-  [s EXCEPT !.procs[i].st = nxt.st, !.procs[i].outs = nxt.outs, !.procs[i].steps = Append(@, StepNames(p.cls)[j])]
-RunInst(s, i) == IF s.procs[i].st = "CREATED" THEN Advance(s, i) ELSE s        \* WAITING: blocked; terminated: nothing to do
+RunInst(s, i) == IF s.procs[i].st = "CREATED" THEN [s EXCEPT !.procs[i] = Run(@)] ELSE s   \* WAITING: blocked; terminated: nothing to do
 
 \* `return proc.future().result()` once step_until_terminated() has returned inside the task's coroutine
 Settle(s, i) == LET p == s.procs[i] IN
-  IF p.mode = "inline" /\ Terminal(p.st) /\ s.replies[p.by].kind = "pending" THEN SetReply(s, p.by, ResultOf(p)) ELSE s
+  IF p.mode = "inline" /\ Terminal(p.st) /\ s.replies[p.by].kind = "pending" THEN SetReply(s, p.by, Future(p)) ELSE s
 
 \* nowait: asyncio.ensure_future(proc.step_until_terminated()); return proc.pid
 Schedule(s, i) == [s EXCEPT !.procs[i].mode = "task"]
@@ -234,7 +287,7 @@ Drain(s) == RunAll(s, Unstarted(s))
 
 \* proc.resume(): the continuation of the Wait command runs (here: to the end of the process)
 Resumable(s) == {i \in 1..Len(s.procs) : s.procs[i].st = "WAITING" /\ s.procs[i].mode # "none"}
-Resume(s, i) == Settle(Advance(s, i), i)
+Resume(s, i) == Settle([s EXCEPT !.procs[i] = After(@)], i)
 
 (* ----------------------------------------------------------------------------------------------- *)
 (* actions                                                                                          *)
@@ -306,7 +359,7 @@ MustReject(t, cfg) == \/ t.type \notin {"create", "launch", "continue"}
                       \/ t.type = "continue" /\ ~cfg.hasP
 Constructible(cfg) == cfg.arg # "bad"
 With(st, key, snap) == [x \in DOMAIN st \cup {key} |-> IF x = key THEN snap ELSE st[x]]
-CreatedSnap(c, cfg) == [cls |-> c, name |-> PersisterScheme(cfg), st |-> "CREATED", v |-> InputOf(cfg.arg), outs |-> <<>>]
+CreatedSnap(c, cfg) == [NoSnap EXCEPT !.cls = c, !.name = PersisterScheme(cfg), !.st = "CREATED", !.v = InputOf(cfg.arg)]
 
 \* RejectOK: rejected exactly when the task cannot be honoured, and then nothing is constructed, persisted, resolved or run
 RejectOK == [][Sent /\ Asserted(S') =>
@@ -319,7 +372,7 @@ CreateOK == [][Sent /\ Asserted(S') /\ NewT.type = "create" /\ ~MustReject(NewT,
     IF Constructible(S.cfg)
     THEN /\ OneNew /\ OthersReplies
          /\ NewP.cls = NewT.cls /\ NewP.origin = "new" /\ NewP.pid \notin Pids(S) /\ NewP.pid # 0
-         /\ NewP.st = "CREATED" /\ NewP.steps = <<>> /\ NewP.outs = <<>> /\ NewP.mode = "none"
+         /\ NewP.st = "CREATED" /\ NewP.steps = <<>> /\ NewP.outs = <<>> /\ NewP.ctx = <<>> /\ NewP.mode = "none"
          /\ NewReply = PidReply(NewP.pid)
          /\ S'.store = IF NewT.persist THEN With(S.store, <<NewP.pid, "None">>, CreatedSnap(NewT.cls, S.cfg)) ELSE S.store
     ELSE /\ S'.procs = S.procs /\ S'.store = S.store /\ NewReply = ErrReply("ValueError") /\ OthersReplies]_vars
@@ -348,12 +401,14 @@ ContinueOK == [][Sent /\ Asserted(S') /\ NewT.type = "continue" /\ ~MustReject(N
 
 \* every instance, fresh or loaded, is somewhere on the trajectory of its class, having executed exactly the steps between
 \* its starting point (CREATED, or the snapshot it was loaded from) and where it is
+RECURSIVE Cat(_, _, _)
+Cat(ss, a, b) == IF a > b THEN <<>> ELSE ss[a] \o Cat(ss, a + 1, b)
 OnTrajectory(p) ==
   LET tr == Traj(p.cls, p.v)
-      start == IF p.origin = "new" THEN tr[1] ELSE [st |-> p.from.st, outs |-> p.from.outs]
+      start == IF p.origin = "new" THEN tr[1] ELSE Pt(p.from.st, p.from.outs, p.from.ctx, p.from.err)
   IN \E a \in 1..Len(tr), b \in 1..Len(tr) :
-        /\ a <= b /\ tr[a] = start /\ tr[b] = [st |-> p.st, outs |-> p.outs]
-        /\ p.steps = SubSeq(StepNames(p.cls), a, b - 1)
+        /\ a <= b /\ tr[a] = start /\ tr[b] = Pt(p.st, p.outs, p.ctx, p.err)
+        /\ p.steps = Cat(EdgeSteps(p.cls), a, b - 1)
 StartedFromSnapshot == Asserted(S) => \A i \in 1..Len(S.procs) : OnTrajectory(S.procs[i])
 
 \* launched and continued processes reach termination: none is left behind unstarted without a pending turn of the loop, and
@@ -370,14 +425,19 @@ NowaitReply == [][Sent /\ Asserted(S') /\ NewT.type \in {"launch", "continue"} /
     /\ NewP.steps = <<>> /\ ~NewP.started
     /\ NewP.origin = "loaded" => NewP.st = NewP.from.st /\ NewP.outs = NewP.from.outs]_vars
 
+\* the outcome of a terminated process: its outputs if it ended FINISHED, else the error it ended with
+Outcome(p) == IF p.st = "FINISHED" THEN OutReply(p.outs) ELSE ErrReply(ErrOf(p.cls))
+\* whatever futures the process went through, the current one carries the outcome (and is pending while it lives)
+FutureIsOutcome == Asserted(S) => \A i \in 1..Len(S.procs) : LET p == S.procs[i] IN
+    Future(p) = IF Terminal(p.st) THEN Outcome(p) ELSE NoReply
 \* WaitingReply: without nowait the reply is the outputs or the error of the terminated process, and is pending exactly while
 \* that process is waiting for the environment
 WaitingReply == Asserted(S) =>
     \A k \in 1..Len(S.tasks) : LET t == S.tasks[k] r == S.replies[k] IN
-      t.type \in {"launch", "continue"} /\ ~t.nowait /\ r.kind \notin {"rejected"} /\ ~(r.kind = "error" /\ r.err # "Boom") =>
+      t.type \in {"launch", "continue"} /\ ~t.nowait /\ r.kind \notin {"rejected"} /\ ~(r.kind = "error" /\ r.err \notin ProcessErrors) =>
         \E i \in 1..Len(S.procs) : LET p == S.procs[i] IN
           /\ p.by = k
-          /\ IF Terminal(p.st) THEN r = ResultOf(p) ELSE r = NoReply /\ p.st = "WAITING"
+          /\ IF Terminal(p.st) THEN r = Outcome(p) ELSE r = NoReply /\ p.st = "WAITING"
 \* a reply, once given, never changes
 RepliesStable == [][\A k \in 1..Len(S.replies) : S.replies[k].kind # "pending" => S'.replies[k] = S.replies[k]]_vars
 
@@ -394,7 +454,8 @@ NoLoaderFailure == Asserted(S) => \A k \in 1..Len(S.replies) : ~(S.replies[k].ki
                                                                  /\ Constructible(S.cfg))
 
 \* the store only changes by what was asked for: persist flags and the environment's saves (checked stepwise above for
-\* tasks); the loop and resume never write
+\* tasks); the loop and resume never write - in particular a process that runs on after it was persisted (its context
+\* grows, it terminates) leaves its checkpoints as they were
 LoopNeverPersists == [][~Sent /\ S'.last.op # "save" => S'.store = S.store]_vars
 
 TypeOK ==
